@@ -485,8 +485,8 @@ theorem h3_dec {perIP : Nat → Nat} {c c' : Conn} (hge : ∀ ip, wIP ip c ≤ p
   · have h' : ¬ ip = c.ip := fun e => h e.symm
     simp [wIP, hip, h, h', ipDec]
 
-theorem act_rejectClose {s s' : State} {i : Nat} {c c' : Conn} (hinv : Inv s) (hc : s.conns[i]? = some c)
-    (h : act s c .rejectClose = some (s', c')) : Inv { s' with conns := s.conns.set i c' } := by
+theorem act_rejectClose {s s' : State} {i : Nat} {c c' : Conn} {err : Bool} (hinv : Inv s) (hc : s.conns[i]? = some c)
+    (h : act s c (.rejectClose err) = some (s', c')) : Inv { s' with conns := s.conns.set i c' } := by
   have hm := List.mem_of_getElem? hc
   have hci := hinv.cn c hm
   have hgeI := ip_ge hinv hm
@@ -497,7 +497,7 @@ theorem act_rejectClose {s s' : State} {i : Nat} {c c' : Conn} (hinv : Inv s) (h
   rename_i hph
   subst hph
   cases h
-  cases reg <;> simp only [closeS, closeC, Bool.false_eq_true, if_false, if_true] <;>
+  cases err <;> cases reg <;> simp only [closeS, closeC, Bool.false_eq_true, if_false, if_true] <;>
     first
       | (refine inv_update hinv hc _ _ _ _ ?_ ?_ (h3_dec hgeI rfl (by simp [isIpTest]) (by simp [isIpTest])) (h4_same hinv ?_)
            (Or.inl ?_) (fun ip => Or.inl (hIP_mono _ _ _ _ rfl (by simp) rfl rfl)) rfl ?_)
@@ -507,8 +507,8 @@ theorem act_rejectClose {s s' : State} {i : Nat} {c c' : Conn} (hinv : Inv s) (h
     | srv_arith
     | srv_conn hci
 
-theorem act_hijackClose {s s' : State} {i : Nat} {c c' : Conn} (hinv : Inv s) (hc : s.conns[i]? = some c)
-    (h : act s c .hijackClose = some (s', c')) : Inv { s' with conns := s.conns.set i c' } := by
+theorem act_hijackClose {s s' : State} {i : Nat} {c c' : Conn} {err : Bool} (hinv : Inv s) (hc : s.conns[i]? = some c)
+    (h : act s c (.hijackClose err) = some (s', c')) : Inv { s' with conns := s.conns.set i c' } := by
   have hm := List.mem_of_getElem? hc
   have hci := hinv.cn c hm
   have hgeI := ip_ge hinv hm
@@ -523,7 +523,7 @@ theorem act_hijackClose {s s' : State} {i : Nat} {c c' : Conn} (hinv : Inv s) (h
   have hnt : isIpTest phase = false := by
     have := hci.pre
     cases phase <;> simp_all [isIpTest, preServing]
-  cases reg <;> simp only [closeS, closeC, Bool.false_eq_true, if_false, if_true] <;>
+  cases err <;> cases reg <;> simp only [closeS, closeC, Bool.false_eq_true, if_false, if_true] <;>
     first
       | (refine inv_update hinv hc _ _ _ _ ?_ ?_ (h3_dec hgeI rfl (by simp) (by simp [hnt])) (h4_same hinv ?_)
            (Or.inl ?_) (fun ip => Or.inl (hIP_mono _ _ _ _ rfl (by simp) hnt hnt)) rfl ?_)
@@ -534,8 +534,8 @@ theorem act_hijackClose {s s' : State} {i : Nat} {c c' : Conn} (hinv : Inv s) (h
     | (cases path <;> cases phase <;> simp_all [wConc, wOpen, wIP, wBusy, hConc, hIP, isIpTest, preServing]; done)
     | srv_conn hci
 
-theorem act_userClose {s s' : State} {i : Nat} {c c' : Conn} (hinv : Inv s) (hc : s.conns[i]? = some c)
-    (h : act s c .userClose = some (s', c')) : Inv { s' with conns := s.conns.set i c' } := by
+theorem act_userClose {s s' : State} {i : Nat} {c c' : Conn} {err : Bool} (hinv : Inv s) (hc : s.conns[i]? = some c)
+    (h : act s c (.userClose err) = some (s', c')) : Inv { s' with conns := s.conns.set i c' } := by
   have hm := List.mem_of_getElem? hc
   have hci := hinv.cn c hm
   have hgeI := ip_ge hinv hm
@@ -556,7 +556,7 @@ theorem act_userClose {s s' : State} {i : Nat} {c c' : Conn} (hinv : Inv s) (hc 
     · rfl
     · have := (this hp).2.1
       rcases hh with hh | hh <;> simp_all
-  cases reg <;> simp only [closeS, closeC, Bool.false_eq_true, if_false, if_true] <;>
+  cases err <;> cases reg <;> simp only [closeS, closeC, Bool.false_eq_true, if_false, if_true] <;>
     first
       | (refine inv_update hinv hc _ _ _ _ ?_ ?_ (h3_dec hgeI rfl (by simp) (by simp [hnt])) (h4_same hinv ?_)
            (Or.inl ?_) (fun ip => Or.inl (hIP_mono _ _ _ _ rfl (by simp) hnt hnt)) rfl ?_)
@@ -568,8 +568,8 @@ theorem act_userClose {s s' : State} {i : Nat} {c c' : Conn} (hinv : Inv s) (hc 
     | (obtain ⟨a1, a2, a3, a4⟩ := hci
        constructor <;> simp_all [isDone, isIpTest])
 
-theorem act_closeConn {s s' : State} {i : Nat} {c c' : Conn} (hinv : Inv s) (hc : s.conns[i]? = some c)
-    (h : act s c .closeConn = some (s', c')) : Inv { s' with conns := s.conns.set i c' } := by
+theorem act_closeConn {s s' : State} {i : Nat} {c c' : Conn} {err : Bool} (hinv : Inv s) (hc : s.conns[i]? = some c)
+    (h : act s c (.closeConn err) = some (s', c')) : Inv { s' with conns := s.conns.set i c' } := by
   have hm := List.mem_of_getElem? hc
   have hci := hinv.cn c hm
   have hgeI := ip_ge hinv hm
@@ -583,7 +583,7 @@ theorem act_closeConn {s s' : State} {i : Nat} {c c' : Conn} (hinv : Inv s) (hc 
   · rename_i hhj
     subst hhj
     cases h
-    cases reg <;> simp only [closeS, closeC, Bool.false_eq_true, if_false, if_true] <;>
+    cases err <;> cases reg <;> simp only [closeS, closeC, Bool.false_eq_true, if_false, if_true] <;>
       first
         | (refine inv_update hinv hc _ _ _ _ ?_ ?_ (h3_dec hgeI rfl (by simp [isIpTest]) (by simp [isIpTest])) (h4_same hinv ?_)
              (Or.inl ?_) (fun ip => Or.inl (hIP_mono _ _ _ _ rfl (by simp) rfl rfl)) rfl ?_)
@@ -702,18 +702,18 @@ theorem inv_act {s s' : State} {i : Nat} {c c' : Conn} (a : Act) (hinv : Inv s) 
   case openInc => exact act_openInc hinv hc h
   case getCh => exact act_getCh hinv hc h
   case openDec => exact act_openDec hinv hc h
-  case rejectClose => exact act_rejectClose hinv hc h
+  case rejectClose err => exact act_rejectClose hinv hc h
   case concInc => exact act_concInc hinv hc h
   case startServing => exact act_startServing hinv hc h
   case hijackStart => exact act_hijackStart hinv hc h
   case cleanupOpen => exact act_cleanupOpen hinv hc h
   case cleanupConc => exact act_cleanupConc hinv hc h
-  case closeConn => exact act_closeConn hinv hc h
+  case closeConn err => exact act_closeConn hinv hc h
   case workerRelease => exact act_workerRelease hinv hc h
   case releaseConc => exact act_releaseConc hinv hc h
   case hijackReturn => exact act_hijackReturn hinv hc h
-  case hijackClose => exact act_hijackClose hinv hc h
-  case userClose => exact act_userClose hinv hc h
+  case hijackClose err => exact act_hijackClose hinv hc h
+  case userClose err => exact act_userClose hinv hc h
 
 /-- a critical section never changes who the connection is, the configuration, or the set of pools -/
 theorem act_frame {s s' : State} {c c' : Conn} {a : Act} (h : act s c a = some (s', c')) :
@@ -724,7 +724,7 @@ theorem act_frame {s s' : State} {c c' : Conn} {a : Act} (h : act s c a = some (
   all_goals first
     | (cases h; done)
     | (cases h; simp; done)
-    | (cases h; cases reg <;> simp)
+    | (cases h; rename_i err; cases err <;> cases reg <;> simp)
 
 /-- connections of `Serve` call `p` exist only for pools that exist -/
 def PathOk (s : State) : Prop := ∀ c ∈ s.conns, ∀ p, c.path = .serve p → p < s.pools.length
